@@ -233,10 +233,15 @@ def _perms(n):
     return list(itertools.permutations(range(n)))
 
 
-def _build(kidx):
+LAYOUTS = [(1, None), (998, None), (1, 2), (2000, 1)]       # (first line number, position after which 10 line numbers are skipped)
+
+
+def _build(kidx, layout=0):
     kernel = []
+    first, gap = LAYOUTS[layout]
     for i, (rs, w) in enumerate(KERNELS[kidx]):
-        kernel.append(iform(i + 1, src=[class_reg("x86", c) for c in rs], dst=[class_reg("x86", w)], lat=(2 if kidx in EQUAL_LAT else 1 << i)))
+        ln = first + i + (10 if gap is not None and i > gap else 0)
+        kernel.append(iform(ln, src=[class_reg("x86", c) for c in rs], dst=[class_reg("x86", w)], lat=(2 if kidx in EQUAL_LAT else 1 << i)))
     return kernel
 
 
@@ -246,11 +251,11 @@ def _result_key(g, deps):
     return rows, fe.loopcarried_dependencies(deps)
 
 
-def _merge_concrete(kidx, ncores, order):
-    seq = DG(_build(kidx), NativeParser(PX), lcd=True)
+def _merge_concrete(kidx, ncores, order, layout=0):
+    seq = DG(_build(kidx, layout), NativeParser(PX), lcd=True)
     want = _result_key(seq, seq.get_loopcarried_dependencies())
     env = Env(ncores, order=list(order))
-    kernel = _build(kidx)
+    kernel = _build(kidx, layout)
     g = DG(kernel, NativeParser(PX))
     g.INSTRUCTION_THRESHOLD = 1
     with installed(env):
@@ -258,15 +263,15 @@ def _merge_concrete(kidx, ncores, order):
     got = _result_key(g, deps)
     ok = got == want and not g.timed_out
     ok = ok and all(p.njoined == 1 for p in env.procs) and not env.killed and len(env.procs) == ncores
-    return ok, len(want[0]) > 0, {"kernel": kidx, "cores": ncores, "publish_order": list(order), "lcds": [r[0] for r in want[0]]}
+    return ok, len(want[0]) > 0, {"kernel": kidx, "cores": ncores, "publish_order": list(order), "line_numbers": [k.line_number for k in kernel], "lcds": [r[0] for r in want[0]]}
 
 
 CORES = [1, 2, 3, 4, 7, 16]
 
 
-def merge_order(kidx: int, ci: int, perm: int) -> bool:
+def merge_order(kidx: int, ci: int, perm: int, layout: int) -> bool:
     """
-    pre: 0 <= kidx < 4 and 0 <= ci < 6 and 0 <= perm < 24
+    pre: 0 <= kidx < 4 and 0 <= ci < 6 and 0 <= perm < 24 and 0 <= layout < 4
     post: _
     """
     if skip(locals()):
@@ -281,7 +286,10 @@ def merge_order(kidx: int, ci: int, perm: int) -> bool:
     if c > 4:
         # more than 4 workers: the permuted 4 publish first in that order, the rest in reverse
         order = order + list(range(c - 1, 3, -1))
-    ok, nt, sample = native(_merge_concrete, k, c, order)
+    lay = pick(layout, 4)
+    if lay and pi % 5 != 0:
+        return True          # line-number layouts: every 5th publication order
+    ok, nt, sample = native(_merge_concrete, k, c, order, lay)
     return verdict(ok, nontrivial=nt, sample=sample)
 
 
@@ -330,7 +338,7 @@ CELLS = {
                     "bound": "E2 (z3 QF_BVFP): int((k-1)/c) == (k-1)//c in IEEE double arithmetic for k <= 256, c <= 64", "budget": {"quick": 170}},
     "float_lemma_full": {"kind": "smt", "fn": lambda b: _float_lemma(b, 4096, 256), "replay": float_lemma_replay, "tiers": ("thorough",),
                          "bound": "same for k <= 4096, c <= 256", "budget": {"thorough": 1200}},
-    "merge_order": {"fn": merge_order, "bound": "4 kernels with overlapping cycles and with several equal-latency cycles (4-6 instructions, threshold lowered) x cpu_count in {1,2,3,4,7,16} x every publication order of the first 4 workers", "budget": {"quick": 170, "thorough": 600}},
+    "merge_order": {"fn": merge_order, "bound": "4 kernels with overlapping cycles and with several equal-latency cycles (4-6 instructions, threshold lowered) x cpu_count in {1,2,3,4,7,16} x every publication order of the first 4 workers; line numbers starting at 1, at 998 (straddling 1000), and with a gap of 10 (as --lines with a hole produces) at 1 and at 2000", "budget": {"quick": 170, "thorough": 600}},
     "real_processes": {"fn": real_processes, "bound": "concrete witness with real multiprocessing: 52-line kernels x 6 rotations vs the sequential search", "budget": {"quick": 170, "thorough": 600}},
 }
 
